@@ -200,6 +200,9 @@ func init() {
 							m.Add(stun.AttrType(a.T), v)
 						}
 						signed := append([]byte(nil), m.Raw...)
+						if ki == 3 && len(c.Res.Samples) < 3 {
+							c.Sample(map[string]interface{}{"signed_message_hex": hex.EncodeToString(signed), "key_hex": hex.EncodeToString(key), "attrs_before_mac": len(b0), "attrs_after_mac": len(after)})
+						}
 						if !report(signed, key, "signed") {
 							return
 						}
